@@ -160,7 +160,8 @@ class ModuleInfo:
     def resolve_static(self, repo, expr):
         """Resolve a Name / Attribute expression at module level to ClassInfo / FuncInfo / ('ext', dotted)."""
         if isinstance(expr, ast.Name):
-            return self.lookup(repo, expr.id)
+            r = self.lookup(repo, expr.id)
+            return r if r is not None else ('ext', expr.id)
         if isinstance(expr, ast.Attribute):
             base = self.resolve_static(repo, expr.value)
             if isinstance(base, tuple) and base[0] == 'ext':
